@@ -223,7 +223,18 @@ class PoolWorldB(object):
             relay_cls = StaticSmtpRelay
             if cfg.get('lmtp'):
                 from slimta.relay.smtp.static import StaticLmtpRelay as relay_cls
-            relay = relay_cls('mx.test', 25, pool_size=cfg['pool_size'], socket_creator=creator, ehlo_as='relay.test',
+            if cfg.get('no_ehlo_as'):
+                # relay built without ehlo_as (the documented default: the FQDN of the system).  The standard library's
+                # getfqdn() answers without switching; gevent's cooperative one may let other greenlets run meanwhile.
+                import socket as std_socket
+                import gevent.socket as gsocket
+                w.patch(std_socket, 'getfqdn', lambda *a: 'relay.test')
+
+                def coop_getfqdn(*a):
+                    w.env_wait('getfqdn')
+                    return 'relay.test'
+                w.patch(gsocket, 'getfqdn', coop_getfqdn)
+            relay = relay_cls('mx.test', 25, pool_size=cfg['pool_size'], socket_creator=creator, ehlo_as=None if cfg.get('no_ehlo_as') else 'relay.test',
                                     idle_timeout=cfg.get('idle_timeout'), context=VContext(), connect_timeout=7.0,
                                     command_timeout=11.0, data_timeout=13.0)
             callers = []
@@ -336,7 +347,10 @@ class PoolWorldH(object):
                     import base64
                     sender = base64.b64decode(dict(req['headers'])['X-Envelope-Sender']).decode()
                     received.append(sender)
-                    f = ch.choose(4, 'http-status', 'data') if cfg.get('faults') else 0
+                    f = ch.choose(5, 'http-status', 'data') if cfg.get('faults') else 0
+                    if f == 4:
+                        # whatever listens there does not speak HTTP (the answer is no status line)
+                        return ('partial', b'220 mx.test ESMTP ready\r\n')
                     if cfg.get('delays') and ch.choose(2, 'delay-response', 'sched') == 1:
                         w.env_wait('origin-replies-%s' % sender)
                     if f == 3:
@@ -522,6 +536,8 @@ def configs(tier, seed):
                     cfgs.append({'layer': 'B', 'lmtp': True, 'callers': callers, 'pool_size': ps, 'idle_timeout': it, 'faults': True, 'd': 0 if q else 1, 'dd': 2})
                 if ps == 1 or callers == 2:
                     cfgs.append({'layer': 'M', 'callers': callers, 'pool_size': ps, 'idle_timeout': it, 'slow_dns': callers == 2, 'd': 2 if q else 3, 'dd': 0})
+                if callers == 3 and it is None:
+                    cfgs.append({'layer': 'B', 'callers': callers, 'pool_size': ps, 'idle_timeout': it, 'faults': True, 'delays': True, 'no_ehlo_as': True, 'd': 2 if q else 3, 'dd': 0})
                 if callers == 2 and ps == 1:
                     # two recipients each, every RCPT may be refused either way (all refused, in different ways, is one case)
                     for lm in (False, True):
